@@ -1943,3 +1943,209 @@ Proof.
   destruct (lcp_req repaired magic p opts) as [r p1] eqn:R. simpl in SA. rewrite SA in Ho.
   exact (proj1 (lcp_auth_supported_only magic p opts r p1 R) o Ho Ht).
 Qed.
+
+(* ------------------------------------------------------------------ LCP session: the magic number on the wire *)
+Ltac Zify.zify_post_hook ::= Z.div_mod_to_equations.
+
+Lemma num32_put32 : forall m, (m < 4294967296)%N -> num32 (put32b m) = m.
+Proof.
+  intros m H. unfold num32, put32b, put32, be32, byte_of. lia.
+Qed.
+
+Lemma put32b_length : forall m, length (put32b m) = 4%nat.
+Proof. reflexivity. Qed.
+
+Lemma num32_bound : forall d, length d = 4%nat -> bytes_ok d -> (num32 d < 4294967296)%N.
+Proof.
+  intros d Hl Hb. destruct d as [|a [|b [|c [|e [|? ?]]]]]; try discriminate.
+  assert (a < 256 /\ b < 256 /\ c < 256 /\ e < 256)%N as (A & B & C & E)
+    by (repeat split; apply Hb; simpl; auto).
+  unfold num32, be32. lia.
+Qed.
+
+Lemma in_firstn : forall {A} k (l : list A) x, In x (firstn k l) -> In x l.
+Proof. induction k; intros l x; simpl; [contradiction|]. destruct l; simpl; [contradiction|]. intros [H|H]; auto. Qed.
+
+Lemma parse_options_bytes : forall fuel d os, bytes_ok d -> parse_options fuel d = Ok os ->
+  forall o, In o os -> bytes_ok (o_data o).
+Proof.
+  induction fuel as [|f IH]; intros d os Hb.
+  - destruct d as [|t [|l rest]]; simpl; intros H; inversion H; subst; intros o [].
+  - destruct d as [|t [|l rest]]; simpl; try (intros H; inversion H; subst; intros o []).
+    destruct ((N.to_nat l <? 2)%nat || (S (S (length rest)) <? N.to_nat l)%nat) eqn:E; [discriminate|].
+    destruct (parse_options f (skipn (N.to_nat l) (t :: l :: rest))) as [os'| | |] eqn:P; simpl; try discriminate.
+    intros H; inversion H; subst. intros o [<-|Ho].
+    + simpl. intros x Hx. apply Hb. right. right. eapply in_firstn; eauto.
+    + eapply IH; [|exact P|exact Ho]. intros b Hin. apply Hb. eapply in_skipn; eauto.
+Qed.
+
+Lemma parse_lenient_bytes : forall w, bytes_ok w -> forall o, In o (parse_lenient w) -> bytes_ok (o_data o).
+Proof.
+  intros w Hb o Ho. unfold parse_lenient, parse_wire in Ho.
+  destruct (parse_options (length w) w) as [os| | |] eqn:P; try contradiction.
+  eapply parse_options_bytes; eauto.
+Qed.
+
+Definition l_inv (s : lsess) : Prop :=
+  (lo_magic (ls_obj s) < 4294967296)%N /\
+  (forall x, In x (ls_last s) -> o_type x = 5%N ->
+     o_data x = put32b (lo_magic (ls_obj s)) /\ lo_magic (ls_obj s) <> 0%N) /\
+  In (ls_fsm s) [6; 7; 8; 9]%N.
+
+Lemma lcp_build_magic : forall o x, In x (lcp_build o) -> o_type x = 5%N ->
+  o_data x = put32b (lo_magic o) /\ lo_magic o <> 0%N.
+Proof.
+  intros o x Hx Ht. unfold lcp_build in Hx. repeat (apply in_app_or in Hx; destruct Hx as [Hx|Hx]).
+  - destruct (negb _); [|contradiction]. destruct Hx as [<-|[]]. discriminate.
+  - destruct (negb (existsb _ _)); simpl in Hx; [|contradiction].
+    destruct (N.eqb_spec (lo_magic o) 0); simpl in Hx; [contradiction|]. destruct Hx as [<-|[]]. auto.
+  - destruct (negb _ && lo_want o); [|contradiction]. destruct Hx as [<-|[]].
+    unfold auth_option in Ht. destruct (N.eqb _ _); discriminate.
+Qed.
+
+Lemma lcp_build_with_lpeer : forall o p, lcp_build (with_lpeer o p) = lcp_build o.
+Proof. reflexivity. Qed.
+
+Lemma lcp_learn_ack_magic : forall l o m,
+  lo_magic o = m -> (forall x, In x l -> o_type x = 5%N -> o_data x = put32b m) -> (m < 4294967296)%N ->
+  lo_magic (fold_left (lcp_learn_opt false) l o) = m /\ lo_rej (fold_left (lcp_learn_opt false) l o) = lo_rej o /\
+  lo_want (fold_left (lcp_learn_opt false) l o) = lo_want o.
+Proof.
+  induction l as [|x l IH]; intros o m Hm Hl Hb; simpl; [auto|].
+  assert (E : lo_magic (lcp_learn_opt false o x) = m /\ lo_rej (lcp_learn_opt false o x) = lo_rej o /\
+              lo_want (lcp_learn_opt false o x) = lo_want o).
+  { unfold lcp_learn_opt. cbn [andb].
+    destruct (N.eqb (o_type x) 1 && Nat.eqb (length (o_data x)) 2); [simpl; auto|].
+    destruct (N.eqb_spec (o_type x) 5); cbn [andb]; [|simpl; auto].
+    destruct (Nat.eqb (length (o_data x)) 4); [|simpl; auto]. simpl.
+    rewrite (Hl x (or_introl eq_refl) e). rewrite num32_put32; auto. }
+  destruct E as (E1 & E2 & E3).
+  destruct (IH (lcp_learn_opt false o x) m E1 (fun y Hy => Hl y (or_intror Hy)) Hb) as (A & B & C).
+  rewrite A, B, C. auto.
+Qed.
+
+Lemma lcp_learn_bound : forall nak l o,
+  (lo_magic o < 4294967296)%N -> (forall x, In x l -> bytes_ok (o_data x)) ->
+  (lo_magic (fold_left (lcp_learn_opt nak) l o) < 4294967296)%N.
+Proof.
+  intros nak l. induction l as [|x l IH]; intros o Hb Hl; simpl; [exact Hb|].
+  apply IH; [|intros y Hy; apply Hl; right; exact Hy].
+  unfold lcp_learn_opt.
+  destruct (N.eqb (o_type x) 1 && Nat.eqb (length (o_data x)) 2); [exact Hb|].
+  destruct (N.eqb (o_type x) 5 && Nat.eqb (length (o_data x)) 4) eqn:E.
+  - simpl. apply andb_true_iff in E. destruct E as [_ E]. apply Nat.eqb_eq in E.
+    apply num32_bound; auto. apply Hl. left. reflexivity.
+  - destruct (nak && N.eqb (o_type x) 3 && (2 <=? length (o_data x))%nat); exact Hb.
+Qed.
+
+Lemma l_start_inv : forall r, (r < 4294967296)%N -> l_inv (fst (lsess_step repaired (lsess0 r) SLStart)).
+Proof.
+  intros r Hr. unfold l_inv. simpl. split; [exact Hr|]. split; [|auto].
+  intros x Hx Ht. apply (lcp_build_magic (mklobj default_pppoe_mru r proto_chap chap_md5 true [] lpeer0) x Hx Ht).
+Qed.
+
+Lemma l_restored_inv : forall r saved, (r < 4294967296)%N -> (saved < 4294967296)%N ->
+  l_inv (lsess_restored r saved).
+Proof.
+  intros r saved Hr Hs. unfold l_inv, lsess_restored. simpl.
+  split; [destruct (N.eqb saved 0); assumption|]. split; [intros x []|auto 6].
+Qed.
+
+Lemma lsess_step_inv : forall s e, lev_ok e -> l_inv s -> l_inv (fst (lsess_step repaired s e)).
+Proof.
+  intros s e Hev (HB & HL & HS).
+  assert (Hreq : forall id wire,
+    let '(a, st', p') := lcp_input repaired (lo_magic (ls_obj s)) (ls_fsm s) (lo_peer (ls_obj s)) id wire in
+    l_inv (mkls (with_lpeer (ls_obj s) p') st' (l_next (with_lpeer (ls_obj s) p') a (ls_last s))
+                (v6_open a (ls_open s)))).
+  { intros id wire. unfold lcp_input.
+    destruct (parse_wire wire) as [os| | |];
+      try (unfold l_inv; simpl; split; [exact HB|split; [exact HL|exact HS]]).
+    destruct (lcp_req repaired (lo_magic (ls_obj s)) (lo_peer (ls_obj s)) os) as [r p'].
+    unfold l_inv, l_next. simpl in HS.
+    destruct HS as [H|[H|[H|[H|[]]]]]; rewrite <- H; unfold rcr_event, reply;
+      (destruct (is_good r); [|destruct (has_rej r)]); simpl;
+      (split; [exact HB|split; [try exact HL; intros x Hx Ht; apply (lcp_build_magic _ x Hx Ht)|auto 6]]). }
+  destruct e as [|id wire|id| |w|w]; cbn [lsess_step].
+  - (* SLStart on a started LCP: nothing *)
+    unfold l_inv, l_next. simpl in HS.
+    destruct HS as [H|[H|[H|[H|[]]]]]; rewrite <- H; simpl; (split; [exact HB|split; [exact HL|auto 6]]).
+  - specialize (Hreq id wire). destruct (lcp_input _ _ _ _ _ _) as [[a st'] p']. simpl. exact Hreq.
+  - specialize (Hreq id (serialize_options (filter (fun x => N.eqb (o_type x) 5) (ls_last s)))).
+    destruct (lcp_input _ _ _ _ _ _) as [[a st'] p']. simpl. exact Hreq.
+  - (* verbatim Ack *)
+    destruct (lcp_learn_ack_magic (ls_last s) (ls_obj s) (lo_magic (ls_obj s)) eq_refl
+                (fun x Hx Ht => proj1 (HL x Hx Ht)) HB) as (A & B & C).
+    unfold l_inv, l_next. simpl. simpl in HS.
+    destruct HS as [H|[H|[H|[H|[]]]]]; rewrite <- H; simpl; rewrite ?A;
+      (split; [exact HB|split; [|auto 6]]);
+      try (intros x Hx Ht; rewrite <- A; apply (lcp_build_magic _ x Hx Ht));
+      try exact HL.
+  - (* Nak: whatever is learned is re-announced at once *)
+    assert (HB' : (lo_magic (fold_left (lcp_learn_opt true) (parse_lenient w) (ls_obj s)) < 4294967296)%N).
+    { apply lcp_learn_bound; auto. intros x Hx. eapply parse_lenient_bytes; eauto. }
+    unfold l_inv, l_next. simpl. simpl in HS.
+    destruct HS as [H|[H|[H|[H|[]]]]]; rewrite <- H; simpl;
+      (split; [exact HB'|split; [intros x Hx Ht; apply (lcp_build_magic _ x Hx Ht)|auto 6]]).
+  - unfold l_inv, l_next. simpl. simpl in HS.
+    destruct HS as [H|[H|[H|[H|[]]]]]; rewrite <- H; simpl;
+      (split; [exact HB|split; [intros x Hx Ht; apply (lcp_build_magic _ x Hx Ht)|auto 6]]).
+Qed.
+
+Lemma lsess_run_inv : forall es s, (forall e, In e es -> lev_ok e) -> l_inv s -> l_inv (lsess_run repaired s es).
+Proof.
+  induction es as [|e es IH]; intros s Hok Hi; simpl; auto.
+  apply IH; [intros x Hx; apply Hok; right; exact Hx|]. apply lsess_step_inv; auto. apply Hok. left. reflexivity.
+Qed.
+
+(* the end-to-end statement: no Configure-Ack ever carries the magic number our last Configure-Request announces *)
+Lemma l_wire_identity_step : forall s e acts id' os, l_inv s ->
+  snd (lsess_step repaired s e) = acts -> In (Sca id' os) acts ->
+  forall o x, In o os -> o_type o = 5%N -> In x (ls_last s) -> o_type x = 5%N -> o_data o <> o_data x.
+Proof.
+  intros s e acts id' os (HB & HL & HS) Hacts Hs o x Ho Hto Hx Htx.
+  destruct (HL x Hx Htx) as [Hd Hnz]. rewrite Hd. intros Heq.
+  assert (Hreq : forall id wire a st' p',
+            lcp_input repaired (lo_magic (ls_obj s)) (ls_fsm s) (lo_peer (ls_obj s)) id wire = (a, st', p') ->
+            In (Sca id' os) a -> False).
+  { intros id wire a st' p' Hin Ha.
+    destruct (lcp_wire_ack _ _ _ _ _ _ _ _ _ _ Hin Ha) as (_ & _ & _ & M & _).
+    apply (M Hnz o Ho Hto). rewrite Heq. apply num32_put32. exact HB. }
+  destruct e as [|id wire|id| |w|w]; cbn [lsess_step] in Hacts.
+  - simpl in Hacts. subst acts. eapply no_sca_up_open; exact Hs.
+  - destruct (lcp_input repaired (lo_magic (ls_obj s)) (ls_fsm s) (lo_peer (ls_obj s)) id wire) as [[a st'] p'] eqn:E.
+    simpl in Hacts. subst acts. eapply Hreq; eauto.
+  - destruct (lcp_input repaired (lo_magic (ls_obj s)) (ls_fsm s) (lo_peer (ls_obj s)) id _) as [[a st'] p'] eqn:E.
+    simpl in Hacts. subst acts. eapply Hreq; eauto.
+  - simpl in Hacts. subst acts. eapply no_sca_rca; exact Hs.
+  - simpl in Hacts. subst acts. eapply no_sca_rcn; exact Hs.
+  - simpl in Hacts. subst acts. eapply no_sca_rcn; exact Hs.
+Qed.
+
+Lemma l_wire_identity : forall s0 es e acts id' os,
+  (exists r, (r < 4294967296)%N /\ s0 = fst (lsess_step repaired (lsess0 r) SLStart)) \/
+  (exists r saved, (r < 4294967296)%N /\ (saved < 4294967296)%N /\ s0 = lsess_restored r saved) ->
+  (forall x, In x es -> lev_ok x) ->
+  let s := lsess_run repaired s0 es in
+  snd (lsess_step repaired s e) = acts -> In (Sca id' os) acts ->
+  forall o x, In o os -> o_type o = 5%N -> In x (ls_last s) -> o_type x = 5%N -> o_data o <> o_data x.
+Proof.
+  intros s0 es e acts id' os H0 Hok s. apply l_wire_identity_step. apply lsess_run_inv; auto.
+  destruct H0 as [(r & Hr & ->)|(r & sv & Hr & Hs & ->)]; [apply l_start_inv|apply l_restored_inv]; auto.
+Qed.
+
+(* a restored session compares with the checkpointed magic number: looping it back is never acknowledged *)
+Lemma l_restored_loopback : forall r saved id wire os acts o,
+  saved <> 0%N ->
+  snd (lsess_step repaired (lsess_restored r saved) (SLReq id wire)) = acts -> parse_wire wire = Ok os ->
+  In o os -> o_type o = 5%N -> length (o_data o) = 4%nat -> num32 (o_data o) = saved ->
+  forall id' os', ~ In (Sca id' os') acts.
+Proof.
+  intros r saved id wire os acts o Hnz Hacts Hp Ho Ht Hl He id' os' Hs.
+  cbn [lsess_step] in Hacts. unfold lsess_restored in Hacts. cbn [ls_obj ls_fsm lo_magic lo_peer] in Hacts.
+  assert (Em : (if N.eqb saved 0 then r else saved) = saved) by (destruct (N.eqb_spec saved 0); [contradiction|reflexivity]).
+  rewrite Em in Hacts.
+  destruct (lcp_input repaired saved 9 lpeer0 id wire) as [[a st'] p'] eqn:E. simpl in Hacts. subst acts.
+  destruct (lcp_wire_loopback repaired saved 9 lpeer0 id wire a st' p' os o Hnz E Hp eq_refl Ho Ht Hl He) as (N1 & _).
+  eapply N1; exact Hs.
+Qed.
